@@ -276,10 +276,15 @@ def run_check(pid, tier, replay_path=None):
     confirmed = []
     for path, case, detail in reg_fail:
         confirmed.append((case, detail, path))
+    bucket = getattr(mod, 'bucket', None)       # optional: several failing inputs of one root cause -> one replay file
     for f in merged['failures'][:40]:
         sig = xv.sha(f['case'])
         if sig in seen_sig: continue
         seen_sig.add(sig)
+        if bucket:
+            b = bucket(f['case'], f['detail'])
+            if b in seen_sig: merged['extra']['duplicate_buckets'] = merged['extra'].get('duplicate_buckets', 0) + 1; continue
+            seen_sig.add(b)
         if len(confirmed) >= 8: break                 # enough replay files for one run
         fails, detail = confirm(mod, f['case'], 3)
         if fails:
